@@ -417,7 +417,18 @@ def run_case(E, case, prop, with_count=False):
     arrs = shadow_arrays(case, d)
     try:
         out = shadow_call(E, case, arrs, return_count=with_count)
-    except (Unsupported, OutsideModel):
+    except (Unsupported, OutsideModel) as e0:
+        if "symbolic branch outside a forking run" in str(e0):
+            # glue code branched on symbolic data: explore the branches (fork-and-replay) through the generic runner
+            from . import common
+
+            class _Fam:
+                build = staticmethod(build)
+                call = staticmethod(lambda E_, c_, d_: shadow_call(E_, c_, shadow_arrays(c_, d_)))
+                bads = staticmethod(lambda c_, d_, o_: spec_bads(c_, d_, o_.cells))
+                wits = staticmethod(witnesses)
+                signature = staticmethod(lambda c_, labels: signature_of(c_, labels))
+            return common.run_generic(E, case, prop, _Fam)
         raise
     except Exception as e:      # noqa: BLE001 - the code under test raised on valid input: candidate "fails instead of returning"
         from ..harness import solve_exists
